@@ -290,7 +290,7 @@ def g_rscript(s):
             out.append("rcap 0")
         elif t[0] == "i":
             out.append("RFail Interrupted")
-        elif t[0] == "o":
+        elif t[0] in ("o", "b"):
             out.append("RFail OtherErr")
     return "[" + "; ".join(out) + "]"
 
@@ -306,8 +306,8 @@ def g_wscript(s):
             out.append("wcap 0")
         elif t[0] == "i":
             out.append("WFail Interrupted")
-        elif t[0] == "o":
-            out.append("WFail OtherErr")
+        elif t[0] in ("o", "b"):
+            out.append("WFail OtherErr")    # WouldBlock is just another non-retried error kind for kestrel
     return "[" + "; ".join(out) + "]"
 
 
